@@ -973,7 +973,8 @@ def _crate_dir():
         vlib.write_if_changed(os.path.join(dst, "src", fn), open(os.path.join(src, "src", fn)).read())
     vlib.write_if_changed(os.path.join(dst, "Cargo.toml"), text)
     if not os.path.exists(os.path.join(dst, "Cargo.lock")):
-        shutil.copy(os.path.join(vlib.REPO, "Cargo.lock"), os.path.join(dst, "Cargo.lock"))
+        lock_src = os.path.join(vlib.REPO, "Cargo.lock")
+    shutil.copy(lock_src if os.path.exists(lock_src) else "/repo/Cargo.lock", os.path.join(dst, "Cargo.lock"))
     return dst, h
 
 
